@@ -86,6 +86,19 @@ CHECKS = {
              "A corpus stream the parser rejects unmutated is skipped and counted (baseline_rejected; the empty stream is one).",
         technique="fault injection on stored bytes (bit flips, bursts, truncation) enumerated at every position, differential decode oracle, replayable per (stream, fault)",
     ),
+    "C11": dict(
+        engine="seamsim",
+        category="exploration",
+        text="Operation histories on both in-memory sinks against a reference model (an ideal MSB-first Vec<bool>): a complete grid of one operation "
+             "at every start offset 0..63 (every operand width, every bit count 0..=width, value patterns, write_twoc widths 1..64, zero runs 0..200, alignment, "
+             "aligned byte slices), seeded random sequences of 1..60 operations compared after every operation (length, bits, zero tail, storage length, "
+             "write_to_byte_slice, to_bitstring), and every component of a corpus of encoded streams written to a required-methods-only user sink, an "
+             "all-methods user sink and MemSink<u64>, compared bit for bit with ByteSink. Thorough adds 2M sequences and a build with debug assertions and overflow checks.",
+        design_ref="DESIGN.md section 4.2",
+        note="Conformance of a sequential object to a reference model over operation histories; there is no schedule or fault dimension in this property and none is invented. "
+             "Operand domain as the property states it: n in 0..=width, two's-complement width 1..64 with a value that fits.",
+        technique="seeded operation-history simulation against an executable reference model (ideal bit string), plus a complete single-operation grid; shrinking by dropping operations",
+    ),
 }
 
 
